@@ -57,7 +57,7 @@ def compare_full(ctx: Ctx, rule: str, construct: str, func: Func, spec_src: str,
         ctx.ob(rule, construct, False, f"function body left the analysable fragment ({e}); behaviour cannot be confirmed", func.where)
         return False
     tree = ast.parse(spec_src.strip())
-    sb = terms.Builder(None, None, dict(env or {}), **{k: v for k, v in opts.items() if k in ("positive", "erase_casts", "erase_validation", "keep_raises", "track_locals", "track_effects", "summarise_loops")})
+    sb = terms.Builder(None, None, dict(env or {}), **{k: v for k, v in opts.items() if k in ("positive", "erase_casts", "erase_validation", "keep_raises", "track_locals", "track_effects", "summarise_loops", "erase_persistence")})
     spec = sb.run(strip_doc(tree.body[0].body))
     none = terms.app("const", "None")
     code = none if code is None else code
